@@ -104,7 +104,9 @@ Inductive stmt :=
 | SRename (src dst:name)
 | SCreateIndex (tbl:name) (i:idx).
 
-Inductive err := EInjected | EIntegrity | EOperational | EOther.   (* EOther: implementation side only *)
+(* EInjected: an injected fault that is an Exception; EInterrupt: an injected BaseException that is NOT an Exception
+   (KeyboardInterrupt, SystemExit, asyncio.CancelledError) — the bare `except:` of _create catches both *)
+Inductive err := EInjected | EInterrupt | EIntegrity | EOperational | EOther.   (* EOther: implementation side only *)
 Inductive res (A:Type) := Ok (a:A) | Err (e:err).
 Arguments Ok {A} a. Arguments Err {A} e.
 
@@ -210,25 +212,25 @@ Inductive prog :=
 (* interpreter state: the connection, the number of statements sent so far, the statements sent (newest first) *)
 Record st := mkSt { s_conn : conn; s_n : nat; s_log : list skind }.
 
-(* `f k = true`: the k-th statement sent (counting the handler's too) raises before it reaches the database *)
-Definition step (k:kind) (f:nat -> bool) (s:stmt) (x:st) : st * option err :=
-  if f (s_n x) then (mkSt (s_conn x) (S (s_n x)) (kind_of s :: s_log x), Some EInjected)
+(* `f k = true`: the k-th statement sent (counting the handler's too) raises `inj k` before it reaches the database *)
+Definition step (k:kind) (f:nat -> bool) (inj:nat -> err) (s:stmt) (x:st) : st * option err :=
+  if f (s_n x) then (mkSt (s_conn x) (S (s_n x)) (kind_of s :: s_log x), Some (inj (s_n x)))
   else let (c, e) := exec k s (s_conn x) in (mkSt c (S (s_n x)) (kind_of s :: s_log x), e).
 
-Fixpoint run (k:kind) (f:nat -> bool) (p:prog) (x:st) : st * option err :=
+Fixpoint run (k:kind) (f:nat -> bool) (inj:nat -> err) (p:prog) (x:st) : st * option err :=
   match p with
   | PSkip => (x, None)
-  | PStmt s => step k f s x
+  | PStmt s => step k f inj s x
   | PSeq p q =>
-      let (x1, e) := run k f p x in
-      match e with None => run k f q x1 | Some _ => (x1, e) end
+      let (x1, e) := run k f inj p x in
+      match e with None => run k f inj q x1 | Some _ => (x1, e) end
   | PTry b h els =>
-      let (x1, e) := run k f b x in
+      let (x1, e) := run k f inj b x in
       match e with
-      | None => run k f els x1
+      | None => run k f inj els x1
       | Some e1 =>
-          let (x2, e2) := run k f h x1 in
-          (x2, Some (match e2 with None => e1 | Some e' => e' end))   (* a failing handler raises its own exception *)
+          let (x2, e2) := run k f inj h x1 in
+          (x2, Some (match e2 with None => e1 | Some e' => e' end))   (* bare `except:`: every exception class; a failing handler raises its own *)
       end
   end.
 
@@ -265,12 +267,14 @@ Definition begin_scope (k:kind) (pre:bool) (db:tables) : conn :=
 Record result := mkResult { r_err : option err; r_log : list skind; r_mid : tables; r_final : tables }.
 
 Definition run_batch (k:kind) (pre:bool) (db:tables) (t:name) (nd:tdef) (tr:list transfer) (ixs:list idx)
-           (f:nat -> bool) (sc:scope) : result :=
+           (f:nat -> bool) (inj:nat -> err) (sc:scope) : result :=
   let tmp := calc_temp_name t in
-  let (x, e) := run k f (create_prog t tmp nd tr ixs) (mkSt (begin_scope k pre db) 0 []) in
+  let (x, e) := run k f inj (create_prog t tmp nd tr ixs) (mkSt (begin_scope k pre db) 0 []) in
   let fin := end_scope (eff_outcome sc e) (s_conn x) in
   mkResult e (rev (s_log x))
            (match sc with Caller _ => current (s_conn x) | OwnScope => fin end)   (* seen on the same connection before the caller ends the transaction *)
            fin.
 
-Definition faults_of (l:list nat) : nat -> bool := fun k => existsb (Nat.eqb k) l.
+Definition faults_of (l:list (nat * err)) : nat -> bool := fun k => existsb (fun p => Nat.eqb k (fst p)) l.
+Definition inj_of (l:list (nat * err)) : nat -> err :=
+  fun k => match find (fun p => Nat.eqb k (fst p)) l with Some p => snd p | None => EInjected end.
